@@ -97,7 +97,13 @@ pub fn pedersen(t: usize, pg_h: u64, pg_g: u64) -> PedersenGens<P> {
         pc.h_base = alt_point("H", pg_h);
         pc.h_base_compressed = pc.h_base.compress();
     }
-    if pg_g != 0 {
+    if pg_g == 100 {
+        // degenerate: the second blinding generator equals the first (two openings of one commitment exist)
+        if t >= 2 {
+            pc.g_base_vec[t - 1] = pc.g_base_vec[t - 2].clone();
+            pc.g_base_compressed_vec[t - 1] = pc.g_base_compressed_vec[t - 2];
+        }
+    } else if pg_g != 0 {
         let k = (pg_g as usize - 1).min(t - 1);
         pc.g_base_vec[k] = alt_point("G", pg_g);
         pc.g_base_compressed_vec[k] = pc.g_base_vec[k].compress();
@@ -160,6 +166,7 @@ pub struct Outcome {
     pub nres: usize,
     pub real_len: usize,
     pub detail: String,
+    pub distinct_fail: Option<String>,
 }
 
 fn proms_of(v: &Value) -> Vec<Option<u64>> {
@@ -319,7 +326,7 @@ pub fn run_scenario(
     let mut rng = ChaCha12Rng::seed_from_u64(ctx.run_seed ^ sidx.wrapping_mul(0x9e3779b97f4a7c15));
     let mut built: Vec<MemberBuilt> = Vec::new();
     let mut proofs: Vec<Option<RangeProof<P>>> = Vec::new();
-    let mut out = Outcome { prove: "ok".into(), verify: "na".into(), masks: vec![], nres: 0, real_len: 0, detail: String::new() };
+    let mut out = Outcome { prove: "ok".into(), verify: "na".into(), masks: vec![], nres: 0, real_len: 0, detail: String::new(), distinct_fail: None };
 
     // ---- prove every member --------------------------------------------------------------------
     for (mi, mb) in members.iter().enumerate() {
@@ -331,7 +338,8 @@ pub fn run_scenario(
         let proms = proms_of(&mb["proms"]);
         let label = mb["label"].as_u64().unwrap();
         let seed = seed_scalar(mb["seed"].as_u64().unwrap(), ctx.run_seed);
-        let params = match ctx.params(n, cap, t, 0, 0) {
+        let ppg = mb["ppg"].as_u64().unwrap_or(0);
+        let params = match ctx.params(n, cap, t, 0, ppg) {
             Ok(p) => p,
             Err(e) => {
                 out.prove = "harness".into();
@@ -352,6 +360,13 @@ pub fn run_scenario(
                     .collect()
             })
             .collect();
+        let mut blinds = blinds;
+        if mb["wshift"].as_u64().unwrap_or(0) == 1 && t >= 2 {
+            for b in blinds.iter_mut() {
+                b[t - 2] += Scalar::ONE;
+                b[t - 1] -= Scalar::ONE;
+            }
+        }
         let commitments: Vec<P> = (0..m).map(|j| params.pc_gens().commit(&Scalar::from(vals[j]), &blinds[j]).unwrap()).collect();
         let stmt = match RangeStatement::init(params.clone(), commitments.clone(), proms.clone(), seed) {
             Ok(s) => s,
@@ -477,6 +492,32 @@ pub fn run_scenario(
     }
     if out.prove != "ok" {
         return (out, built);
+    }
+    // ---- C14: same commitments, different witness: no randomness-derived proof element may be shared ----------
+    if sc["samecommit"].as_bool().unwrap_or(false) && built.len() == 2 {
+        if built[0].commitments != built[1].commitments || built[0].blinds == built[1].blinds {
+            out.prove = "harness".into();
+            out.detail = "same-commitment pair was not formed".into();
+            return (out, built);
+        }
+        let a = built[0].proof_bytes.clone().unwrap();
+        let b = built[1].proof_bytes.clone().unwrap();
+        let t = a[0] as usize;
+        let el = |x: &Vec<u8>, i: usize| x[1 + 32 * i..33 + 32 * i].to_vec();
+        let mut shared = vec![];
+        // A, A1, B, r1, s1 always involve RNG-derived nonces (alpha only without a seed)
+        let seeded = built[0].seed.is_some();
+        for (name, i) in [("A", t), ("A1", t + 1), ("B", t + 2), ("r1", t + 3), ("s1", t + 4)] {
+            if name == "A" && seeded {
+                continue; // alpha is seed-derived then and the bits are those of the same value: A legitimately repeats
+            }
+            if el(&a, i) == el(&b, i) {
+                shared.push(name);
+            }
+        }
+        if !shared.is_empty() {
+            out.distinct_fail = Some(format!("two runs that differ only in the witness (same commitments, same external RNG stream) share {:?}", shared));
+        }
     }
 
     // ---- encode, alter, decode ------------------------------------------------------------------
@@ -748,6 +789,9 @@ pub fn compare(expect: &Value, out: &Outcome) -> Option<String> {
     }
     if out.verify == "recode" {
         return Some(out.detail.clone());
+    }
+    if let Some(d) = &out.distinct_fail {
+        return Some(d.clone());
     }
     if out.verify == "roundtrip_fail" {
         return Some("ROUNDTRIP: from_bytes(to_bytes(proof)) failed for a proof the prover produced".to_string());
